@@ -300,4 +300,7 @@ func runC21(c *eng.Ctx) {
 		c.Ob("GUARD-hardlink-last", eng.FuncName(fn)+" decrement-by-one", dec, fn.Pos(), "removing a name decrements the counter by one")
 		c.ErrChecked("ERR-hardlink", "kv", fn, eng.Find(fn, eng.PlainCallTo("filer.FilerStoreWrapper).KvGet")), "a failed read of the shared record is reported")
 	}
+
+	errAll(c, "ERR-hardlink-paths", "weed/filer", "an error of a callee in the store wrapper reaches the caller", "(*FilerStoreWrapper).InsertEntry", "(*FilerStoreWrapper).UpdateEntry", "(*FilerStoreWrapper).DeleteFolderChildren", "(*FilerStoreWrapper).DeleteHardLink")
+	c.Expect("ERR-hardlink-paths", 10)
 }
